@@ -396,6 +396,140 @@ def make_o3(ncomp):
     return o3
 
 
+# ------------------------------------------------------------------ O4: a dependency added late, evaluated from the group registry
+def late_world(oc, values, deep, hashes=None):
+    """X depends on the group [d0]; d1 (which itself needs e when `deep`) is added to that group later with dr.add_dependency"""
+    calls = []
+
+    idx = {"e": 0, "d0": 1, "d1": 2, "x": 3}
+
+    def mk(name, order, fn, *deps):
+        fn.__name__ = fn.__qualname__ = name
+        fn.__symx_order__ = order
+        if hashes is not None:
+            from props._native import HashedCallable
+            fn = HashedCallable(fn, hashes[idx[name]])
+        return ctype(*deps)(fn)
+
+    def body(i):
+        def f(*a):
+            if oc[i] == "value":
+                return values[i]
+            raise SkipComponent()
+        return f
+    e = mk("e", 0, body(2))
+    d0 = mk("d0", 1, body(0))
+    d1 = mk("d1", 2, body(1), e) if deep else mk("d1", 2, body(1))
+
+    def x(*args):
+        calls.append(args)
+        return ("x",)
+    X = mk("x", 9, x, [d0])
+    dr.add_dependency(X, d1)
+    return X, d0, d1, e, calls
+
+
+def judge_late(oc, values, deep, X, d0, d1, calls, broker, eq=lambda a, b: a == b):
+    p0 = oc[0] == "value"
+    p1 = oc[1] == "value" and (not deep or oc[2] == "value")
+    bad = []
+    if len(calls) != (1 if (p0 or p1) else 0):
+        bad.append("x invoked %d times although %s of its at-least-one group produced a value" % (len(calls), "a member" if (p0 or p1) else "no member"))
+    elif calls:
+        a = calls[0]
+        ok = len(a) == 2 and ((a[0] is not None and eq(a[0], values[0])) if p0 else a[0] is None) and ((a[1] is not None and eq(a[1], values[1])) if p1 else a[1] is None)
+        if not ok:
+            bad.append("x received %d arguments that are not (value of d0 or None, value of the late dependency or None)" % len(a))
+    if not (p0 or p1):
+        got = broker.missing_requirements.get(X)
+        if got is None or tuple(got) != ([], [[d0, d1]]):
+            bad.append("missing report %r, expected the whole group" % (got,))
+    elif X in broker.missing_requirements:
+        bad.append("x reported missing requirements although a member of its group produced a value")
+    return bad
+
+
+def make_o4():
+    def o4(en):
+        with REG:
+            oc = [["value", "skip"][en.choice("oc%d" % i, 2)] for i in range(3)]
+            values = [en.fresh_int("v%d" % i) for i in range(3)]
+            deep = en.flag("deep")
+            how = ["group-registry", "named"][en.choice("how", 2)]
+            X, d0, d1, e, calls = late_world(oc, values, deep)
+            case = lambda mv: {"kind": "late", "outcomes": oc, "deep": deep, "how": how, "values": [mv.int(v) for v in values]}  # noqa
+            en.note_sample(case)
+            with oset.symbolic_order(mode="global"):
+                broker = dr.run(broker=dr.Broker()) if how == "group-registry" else dr.run(dr.get_dependency_graph(X), broker=dr.Broker())
+            eqs = []
+
+            def eq(a, b):
+                if isinstance(a, core.SInt) or isinstance(b, core.SInt):
+                    eqs.append(a == b)
+                    return True
+                return a == b
+            bad = judge_late(oc, values, deep, X, d0, d1, calls, broker, eq)
+            en.must_hold(not bad, "invoked-iff", case, detail=bad)
+            for c_ in eqs:
+                en.must_hold(c_, "args-bound", case, detail="argument value differs from the dependency's value")
+            if not eqs:
+                en.must_hold(True, "args-bound")
+    return o4
+
+
+# ------------------------------------------------------------------ O5: one rule evaluated twice in a process
+def make_o5():
+    """a rule with a required dependency and an at-least-one group, evaluated on two brokers one after the other with independent
+    dependency outcomes: each evaluation reports exactly its own missing requirements"""
+    def o5(en):
+        with REG:
+            ocs = [[["value", "skip"][en.choice("oc%d_%d" % (r, i), 2)] for i in range(3)] for r in range(2)]
+            cur = [0]
+
+            def mk(name, order, i):
+                def f():
+                    if ocs[cur[0]][i] == "value":
+                        return i + 1
+                    raise SkipComponent()
+                f.__name__ = f.__qualname__ = name
+                f.__symx_order__ = order
+                return ctype()(f)
+            r0, g0, g1 = mk("r0", 0, 0), mk("g0", 1, 1), mk("g1", 2, 2)
+            calls = []
+
+            def report(a, b, c):
+                calls.append(cur[0])
+                return plugins.make_pass("KEY")
+            report.__name__ = report.__qualname__ = "report"
+            report.__symx_order__ = 9
+            R = plugins.rule(r0, [g0, g1])(report)
+            case = lambda mv: {"kind": "twice", "outcomes": ocs}  # noqa
+            en.note_sample(case)
+            bad = run_twice_judge(ocs, cur, R, r0, g0, g1, calls)
+            en.must_hold(not bad, "missing-reported", case, detail=bad)
+    return o5
+
+
+def run_twice_judge(ocs, cur, R, r0, g0, g1, calls):
+    bad = []
+    for rnd in range(2):
+        cur[0] = rnd
+        broker = dr.run(dr.get_dependency_graph(R), broker=dr.Broker())
+        oc = ocs[rnd]
+        miss_req = [] if oc[0] == "value" else [r0]
+        miss_grp = [] if (oc[1] == "value" or oc[2] == "value") else [[g0, g1]]
+        res = broker.get(R)
+        if not miss_req and not miss_grp:
+            if calls.count(rnd) != 1 or not (isinstance(res, dict) and res.get("type") == "pass"):
+                bad.append("evaluation %d: requirements met but the rule did not fire once (%r)" % (rnd + 1, res))
+        else:
+            if calls.count(rnd):
+                bad.append("evaluation %d: the rule fired with missing requirements" % (rnd + 1))
+            if not (isinstance(res, plugins._make_skip) and tuple(res.missing) == (miss_req, miss_grp)):
+                bad.append("evaluation %d: skip result reports %r, missing are %r" % (rnd + 1, getattr(res, "missing", res), (miss_req, miss_grp)))
+    return bad
+
+
 def obligations(tier):
     thorough = tier == "thorough"
     enc = [dr.ComponentType.__init__, dr.ComponentType.invoke, dr.ComponentType.get_missing_dependencies,
@@ -430,6 +564,13 @@ def obligations(tier):
                            bounds={"components of the type": 3 if thorough else 2, "type-level": "requires [d0] or none, optional [d1] or none", "decorator": "each of d2, d3 required / optional / not used, per component",
                                    "outcomes": ["value", "skip"], "values": "unconstrained symbolic ints"},
                            encoded=enc[:4], budget_s=300 if thorough else 60, replay="types", check_sample=True))
+    obls.append(Obligation("O4-late-dependency", make_o4(), ["invoked-iff", "args-bound"],
+                           desc="a member added to an at-least-one group with dr.add_dependency after the component was declared (as spec sets hook implementations into registry points), evaluated from the group registry or from the named component: it counts towards the group and is bound as the last argument",
+                           bounds={"outcomes": "value / skip for d0, the late dependency d1 and (flag) a dependency of d1", "graph taken from": ["group registry", "named component"], "set order": "every global order"},
+                           encoded=enc[:5] + [dr.add_dependency, dr.ComponentType.add_dependency], budget_s=60, replay="fires", check_sample=True))
+    obls.append(Obligation("O5-rule-twice", make_o5(), ["missing-reported"],
+                           desc="one rule (a required dependency and an at-least-one group) evaluated on two brokers one after the other with independent dependency outcomes: each skip result names exactly that evaluation's missing requirements",
+                           bounds={"evaluations": 2, "dependency outcomes": "value / skip, independent per evaluation"}, encoded=[plugins.rule.process, plugins._make_skip.__init__], budget_s=60, replay="fires", check_sample=True))
     obls.append(Obligation("O2-config", make_o2(3 if thorough else 2), ["config-enabled"],
                            desc="apply_default_enabled + apply_configs after an arbitrary earlier history of set_enabled / is_enabled on 3 components",
                            bounds={"components": 3, "config entries": 3 if thorough else 2, "name pool": 6, "enabled values": "symbolic booleans"},
@@ -457,6 +598,38 @@ def validate(tier):
 
 
 def _native(case):
+    if case.get("kind") == "late":
+        from props._native import hash_orders
+        for hs in hash_orders(4):        # CPython's own set order over the four components is enumerated through chosen hashes
+            for c_ in [c for c in list(dr.DELEGATES) if getattr(c, "__name__", "") in ("e", "d0", "d1", "x")]:
+                for reg in (dr.DELEGATES, dr.DEPENDENCIES, dr.DEPENDENTS, dr.COMPONENTS[dr.GROUPS.single]):
+                    reg.pop(c_, None)
+            X, d0, d1, e, calls = late_world(case["outcomes"], case["values"], case["deep"], hs)
+            g_ = dict((c, set(dr.get_dependencies(c))) for c in (X, d0, d1, e)) if case["how"] == "group-registry" else dr.get_dependency_graph(X)
+            if case["how"] == "group-registry":
+                g_ = dict((c, dr.COMPONENTS[dr.GROUPS.single][c]) for c in (e, d0, d1, X))     # the group registry's own entries for these components
+            broker = dr.run(g_, broker=dr.Broker())
+            bad = judge_late(case["outcomes"], case["values"], case["deep"], X, d0, d1, calls, broker)
+            if bad:
+                return [("invoked-iff", b) for b in bad + (["component hash order %s" % (hs,)] if hs else [])]
+        return []
+    if case.get("kind") == "twice":
+        ocs, cur, calls = case["outcomes"], [0], []
+
+        def mk(name, i):
+            def f():
+                if ocs[cur[0]][i] == "value":
+                    return i + 1
+                raise SkipComponent()
+            f.__name__ = f.__qualname__ = name
+            return ctype()(f)
+        r0, g0, g1 = mk("r0", 0), mk("g0", 1), mk("g1", 2)
+
+        def report(a, b, c):
+            calls.append(cur[0])
+            return plugins.make_pass("KEY")
+        R = plugins.rule(r0, [g0, g1])(report)
+        return [("missing-reported", b) for b in run_twice_judge(ocs, cur, R, r0, g0, g1, calls)]
     if case.get("kind") == "types":
         values = case.get("values") or [100 + 10 * i for i in range(4)]
         w = TypeWorld(case["impl_req"], case["impl_opt"], case["roles"], lambda i: case["outcomes"][i], lambda i: values[i])
@@ -474,7 +647,7 @@ def _native(case):
 
 def replay(rec):
     case = rec["case"]
-    if "decl" in case or case.get("kind") == "types":
+    if "decl" in case or case.get("kind") in ("types", "late", "twice"):
         bad = _native(case)
         return {"reproduced": bool(bad), "detail": bad, "signature": rec["label"]}
     if "cfgs" in case:
